@@ -386,6 +386,45 @@ def new_scalar(leaf, r):
     return r.choice([lo, hi, 1, 2, r.randint(lo, hi)])
 
 
+def c07_override_scenario(fails, tags):
+    """kernel descriptions prepared from one class, built with `extra_classes=[variant]`, the variant having the same name and
+    another layout: the class given LAST overrides (documented), so the compiled setters address the variant's elements"""
+    xo = common.import_xobjects()
+    import numpy as np
+    uid = next(_ov_uid)
+    name = f"Cell{uid}"
+    base = type(xo.Struct)(name, (xo.Struct,), {"count": xo.Int64, "w": xo.Float64[:]})
+    variant = type(xo.Struct)(name, (xo.Struct,), {"flag": xo.Int64, "count": xo.Int64, "w": xo.Float64[:]})
+    ctx = {"op": "override", "type": f"{name}: descriptions from (count, w), extra class (flag, count, w)"}
+    try:
+        kctx = xo.ContextCpu()
+        kctx.add_kernels(kernels=base._gen_kernels(), extra_classes=[variant])
+        cell = variant(flag=77, count=5, w=[1.0, 2.0, 3.0], _context=kctx)
+    except Exception as ex:
+        fails.append(common.Failure("oracle", f"C07:build-fails:{type(ex).__name__}", f"override build: {str(ex)[:300]}", ctx))
+        return
+    img = lambda: bytes(cell._buffer.to_bytearray(0, cell._buffer.capacity))
+    steps = [(f"{name}_set_count", {}, cell._get_offset("count"), np.int64(-12))] + \
+            [(f"{name}_set_w", {"i0": i}, cell.w._get_offset(i), np.float64(10.5 + i)) for i in range(3)]
+    for fn, kw, pos, val in steps:
+        want = bytearray(img())
+        want[pos:pos + 8] = val.tobytes()
+        try:
+            getattr(kctx.kernels, fn)(obj=cell, value=val, **kw)
+        except Exception as ex:
+            fails.append(common.Failure("oracle", "C07:call-fails", f"{fn}: {type(ex).__name__} {str(ex)[:200]}", ctx))
+            return
+        tags["c07.override-setter"] += 1
+        if img() != bytes(want):
+            fails.append(common.Failure("oracle", "C07:setter-not-exactly-the-element",
+                                        f"{fn}{kw} on an object of the OVERRIDING class (given last, in extra_classes) did not change exactly "
+                                        f"that element: flag={int(cell.flag)} count={int(cell.count)} w={[float(x) for x in cell.w.to_nparray()]}", ctx))
+            return
+
+
+_ov_uid = itertools.count(1)
+
+
 def run_c07(tier, seed):
     """setters through cffi (exactly the element changes, to exactly the value), the model's access lists (in bounds,
     aligned relative to the object), and the stand-alone sanitizer build of the emitted source"""
@@ -401,6 +440,7 @@ def run_c07(tier, seed):
     evals = 0
     ctypes = CORPUS + gen_types(r, n_comp)
     with common.scratch_cwd() as tmp:
+        c07_override_scenario(fails, tags)
         for k, t in enumerate(ctypes):
             cache = {}
             cls = T.build(t, cache)
